@@ -1,0 +1,22 @@
+//go:build verif
+
+// Contracts for package rotate, checked by /verif (govc). Comment-only; compiled only under -tags verif.
+package rotate
+
+//@ func InternalSignAndUpload
+//@   requires req != nil && req.Mutation != nil
+//@   requires[C10] caInv(live, durPrimary, durCerts)
+//@   assigns nothing
+//@   modifies pendCerts, signerCalls, sigKey, sigDigest, lastSig
+//@   ensures[C10] err == nil ==> result != nil && pendCerts[req.SubjectKeyVersionName]
+//@   ensures[C10] forall(x, string, x != req.SubjectKeyVersionName ==> pendCerts[x] == old(pendCerts)[x])
+//@   ensures[C10] err != nil ==> forall(x, string, pendCerts[x] == old(pendCerts)[x])
+
+//@ func Key
+//@   requires caInv(live, durPrimary, durCerts)
+//@   modifies live, destroyed, durPrimary, durCerts, pendPrimary, pendPrimarySet, pendCerts, caCalls, caPrimary, signerCalls, sigKey, sigDigest, lastSig, bundleKeyArg, lastBundle
+//@   sweep[C10] nilinvoke nilcall
+//@   ensures[C10] caInv(live, durPrimary, durCerts)
+//@   ensures[C10] err == nil ==> durPrimary == result0 && live[result0] && durCerts[result0]
+//@   ensures[C10] err == nil && old(durPrimary) != result0 && old(durPrimary) != "" ==> !live[old(durPrimary)] && destroyed[old(durPrimary)]
+//@   ensures[C10] forall(x, string, destroyed[x] && !old(destroyed)[x] ==> x != durPrimary && x == old(durPrimary))
